@@ -7,8 +7,10 @@ Evidence produced on every run, on /repo's working tree:
   1. MODEL SEARCH: compare_env (heap model vs spec_tree) evaluated by the extracted model on every
      labelled inheritance graph of the enumeration (all allOf lists over earlier and later types =
      all declaration orders; nested objects, arrays, use sites of all kinds).  Any difference is a
-     violation (the verdict line also says whether the project is in the class of the proved theorem:
-     skeleton=1).
+     violation.  allof_correct of props/C12.v covers every accepted project; the verdict line names the
+     shape (skeleton=1: the class of allof_correct_skeleton; skeleton2=1 only: a BASE type with a rule below
+     its root; neither: a rule inside an object with a rule) and res.notes["shapes_*"] print how many
+     environments of each shape the two dynamic stages contained.
   2. UNIT CORRESPONDENCE: the real (*JApiCore).ProcessAllOf on hand-built catalogs vs the model,
      without the schema library in between (diamonds, overrides, cycles, nil ContentJSight: the paths
      a document cannot reach because the library rejects first).
@@ -156,6 +158,54 @@ BASE_GRAPHS = {
 }
 
 
+def deep_base_family(tier, seed):
+    """The shapes that were outside the class of allof_correct_skeleton, in quantity: a BASE type @a with a
+    rule below its root (on a nested object, on an array item, two levels down, several at once:
+    env_skeleton2) or with a rule inside an object that has a rule itself (outside env_skeleton2),
+    inherited through one, two and three levels (@b, @c, @d; @d also inherits on a nested object), in
+    random declaration orders, alone and with use sites that inherit from the last heir, from @a and
+    from the middle of the chain.  Yields (types, uses, tag)."""
+    rng = random.Random(seed * 7919 + 12)
+    x = ("@x", O([], ("x", S)))
+    y = ("@y", O([], ("y", A(S))))
+    variants = [
+        ("obj", O([], ("p", O(["@x"], ("q", S))), ("a", S))),
+        ("item", O([], ("l", A(O(["@x"], ("m", S)), S)), ("a", S))),
+        ("deep", O([], ("q", O([], ("r", O(["@y"])))), ("a", S))),
+        ("obj+item", O([], ("p", O(["@x"], ("q", S))), ("l", A(O(["@y", "@x"], ("m", S)))), ("a", S))),
+        ("item-in-item", O([], ("l", A(O(["@y"], ("m", S)), A(O(["@x"])))))),     # (an annotated item AFTER an array item is not accepted by the schema library's scanner)
+        ("rule-in-rule", O(["@y"], ("p", O(["@x"], ("q", S))), ("a", S))),
+        ("rule-in-rule-deep", O([], ("p", O(["@x"], ("q", O(["@y"], ("r", S))))), ("a", S))),
+        ("rule-in-rule-item", O(["@y"], ("l", A(O(["@x"], ("m", O(["@x"]))))))),
+    ]
+    heirs = [("@b", O(["@a"], ("b", S))), ("@c", O(["@b"], ("c", S))), ("@d", O(["@c"], ("d", O(["@b"], ("e", S)))))]
+    nperm = 6 if tier == "quick" else 40
+    for vname, body in variants:
+        for levels in (1, 2, 3):
+            types = [x, y, ("@a", body)] + heirs[:levels]
+            names = [n for n, _ in types]
+            top = heirs[levels - 1][0]
+            sites = []
+            for k in ("query", "req", "resp", "rpcp", "rpcr"):
+                for b in (top, "@a", heirs[0][0]):
+                    sites += [(k, O([b], ("z", S))), (k, A(O([b]))), (k, O([], ("w", O([b], ("z", S)))))]
+            for _ in range(nperm):
+                p = types[:]
+                rng.shuffle(p)
+                yield p, [], "deepbase:%s/%d" % (vname, levels)
+                yield p, [rng.choice(sites)], "deepbase-use:%s/%d" % (vname, levels)
+                yield p, [rng.choice(sites) for _ in range(rng.randint(2, 3))], "deepbase-use:%s/%d" % (vname, levels)
+
+
+def shape_of(flags):
+    """the class of a project from the flags of `modelrun allofcmp`"""
+    if " skeleton=1" in flags:
+        return "env_skeleton"
+    if " skeleton2=1" in flags:
+        return "env_skeleton2 only (a base with a rule below its root)"
+    return "outside both (a rule inside an object with a rule)"
+
+
 def extra_documents():
     J = "JSIGHT 0.3\n\n"
     B = 'TYPE @B\n{\n  "b": 1,\n  @key: 2\n}\n\n'
@@ -241,10 +291,12 @@ def document_cases(tier, seed):
             cases.append((rng.choice(perms), [rng.choice(cands) for _ in range(k)], "useN:" + name))
     # D. faults
     cases += fault_cases()
+    # E. bases with rules below their root, rules inside objects with rules: one to three levels of inheritance
+    cases += list(deep_base_family(tier, seed))
     return cases
 
 
-def search_envs(tier):
+def search_envs(tier, seed=0):
     """the enumeration of the model search (step 1) and of the unit correspondence (step 2)"""
     if tier == "quick":
         plain = [(1, 2, 1), (2, 2, 2), (3, 1, 3)]
@@ -266,6 +318,9 @@ def search_envs(tier):
             yield g, [], True
     for n, mb, rich in shaped:
         yield from ((g, [], n <= 3 and mb <= 1) for g in shaped_graphs(n, mb, rich))
+    # acyclic by construction: also compared with the real ProcessAllOf (the ones without use sites)
+    for t, u, _ in deep_base_family(tier, seed):
+        yield t, u, not u
 
 
 # ---------------------------------------------------------------------------------------
@@ -316,7 +371,9 @@ def run(res, tier, seed, replay):
         "graphs (chains of 3 and 4, two bases, shared base, tree, empty diamond, nested base) in every "
         "permutation of the TYPE directives, with use sites in Path, Query, request/response Headers and Body, "
         "JSON-RPC Params/Result; fault injections (override, non-object base, undefined base, diamond, common "
-        "key, recursion) in every order; non-trivial = accepted document in which some object inherits")
+        "key, recursion) in every order; base types with rules below their root (nested object, array item, two levels "
+        "down, rule inside a rule) inherited through 1-3 levels in random declaration orders with and without use "
+        "sites; non-trivial = accepted document in which some object inherits")
     res.notes["known_classes"] = KNOWN
     if not (pr.harness_ok and pr.model_ok):
         res.violation("build failed: " + (pr.harness_err or pr.model_err)[-800:],
@@ -342,6 +399,7 @@ def run(res, tier, seed, replay):
     # 1 + 2: model search and unit correspondence
     n_search = 0
     cls_count = {}
+    shape_search = {"all": {}, "accepted": {}}
     unit_stats = {"compared": 0, "model_nonterminating_skipped": 0, "not_attempted": 0}
     chunk = []
 
@@ -380,6 +438,10 @@ def run(res, tier, seed, replay):
         for (t, u, _), e, o, a, b in zip(chunk, encs, out, um, ui):
             head = o.split(" ")[0]
             cls_count[o] = cls_count.get(o, 0) + 1
+            sh = shape_of(o)
+            shape_search["all"][sh] = shape_search["all"].get(sh, 0) + 1
+            if head != "rejected":
+                shape_search["accepted"][sh] = shape_search["accepted"].get(sh, 0) + 1
             if head == "modelfails" or head.startswith("differs"):
                 search_bad.append((t, u, o))
             if head != "rejected" and not u:
@@ -389,7 +451,7 @@ def run(res, tier, seed, replay):
         res.count(3 * len(chunk))
 
     accepted = []
-    for env in (envs if envs is not None else search_envs(tier)):
+    for env in (envs if envs is not None else search_envs(tier, seed)):
         chunk.append(env)
         if len(chunk) >= 200000:
             flush(chunk)
@@ -420,6 +482,11 @@ def run(res, tier, seed, replay):
                 chunk = []
         flush(chunk)
     res.notes["unit_correspondence"] = unit_stats
+    res.notes["shapes_model_vs_spec"] = {
+        "environments": n_search, "by class, all": shape_search["all"], "by class, accepted by the library": shape_search["accepted"],
+        "meaning": "class of every environment of the model search / unit correspondence: env_skeleton = the class of "
+                   "allof_correct_skeleton; env_skeleton2 only = a BASE type carries a rule below its root; outside both = a "
+                   "rule inside an object that has a rule itself; all three are inside allof_correct (every accepted project)"}
     res.notes["model_search"] = {"environments": n_search, "verdicts": cls_count,
                                  "meaning": "compare_env of spec/AllOfSpec.v evaluated by the extracted model; "
                                             "differs or modelfails = violation"}
@@ -428,6 +495,18 @@ def run(res, tier, seed, replay):
     docs = [make_doc(t, u) for t, u, _ in cases]
     impl = C.run_sharded("harness", "fn", [P.run_line("-", [("main.jst", d)]) for d in docs], shards=16)
     model = C.run_sharded("modelrun", None, ["allof " + G.enc_env(t, u) for t, u, _ in cases], shards=16)
+    shapes = C.run_sharded("modelrun", None, ["allofcmp " + G.enc_env(t, u) for t, u, _ in cases], shards=16)
+    shape_docs = {"all": {}, "accepted by the implementation": {}}
+    for (t, u, _), sho, io in zip(cases, shapes, impl):
+        sh = shape_of(sho)
+        shape_docs["all"][sh] = shape_docs["all"].get(sh, 0) + 1
+        if P.parse(io)[0] == "ok":
+            shape_docs["accepted by the implementation"][sh] = shape_docs["accepted by the implementation"].get(sh, 0) + 1
+        if sho.startswith("differs") or sho.startswith("modelfails"):
+            search_bad.append((t, u, sho))
+    res.notes["shapes_model_vs_implementation"] = {
+        "documents": len(cases), "by class": shape_docs,
+        "meaning": "class (see shapes_model_vs_spec) of every generated document of the document correspondence"}
     res.count(2 * len(cases))
     res.coverage["traces_validated_against_impl"] = len(cases) + n_search
     dist = {}
